@@ -58,6 +58,7 @@ pub fn views_for(n: usize) -> Vec<VK> {
     v.push(VK::Echo);
     v.push(VK::PFE(n.max(3), Box::new(VK::Ema(2))));
     v.push(VK::EFT(n.max(2), Box::new(VK::Ema(2))));
+    if n <= 2 { v.push(VK::EFT(2, Box::new(VK::SuperSmoother(2)))); }
     v.dedup();
     v
 }
